@@ -36,7 +36,10 @@ def run(R, tier):
                     ok, why = debug_assert_ok(P, unit, s)
                     R.check(ok, "R01.1", s.key + tag, "debug_assert! precondition: %s" % why, "debug assertion in %s can be violated by library callers: %s" % (s.body.npath, why), where=s.line)
                 elif d == "R01.2":
-                    R.ok("R01.1", s.key + tag, "internal-error arm (decided dead by R01.2)")
+                    # the accept matrix (R01.2) decides these arms only inside TryFrom<Token> conversions; the same
+                    # macro anywhere else has no such argument
+                    in_conv = s.body.name == "try_from" and "convert::TryFrom<" in (s.body.impl_trait or "") and "Token<" in (s.body.impl_trait or "")
+                    R.check(in_conv, "R01.1", s.key + tag, "internal-error arm (decided dead by R01.2)", "parser_unreachable!() in %s: outside a TryFrom<Token> conversion nothing shows the arm to be dead (it panics in debug builds and reports -300 in release builds)" % s.body.npath, where=s.line)
                 else:
                     R.ok("R01.1", s.key + tag, d)
         R.count("panic_sites" + tag, n_sites)
@@ -74,6 +77,15 @@ def run(R, tier):
             nl = u.body("scpi::parser::expression::numeric_list::NumericList::read_numeric_data")
             srcs = {c.name.split("::")[-1] for c in nl.calls() if "Tokenizer" in c.name}
             R.check(srcs == {"read_nrf"}, "R01.2", "numeric-list-elements", "numeric list entries are produced by read_nrf (decimal data) only", "numeric list entries come from %s" % sorted(srcs))
+
+        if cfg_name == "dflt":
+            # the dispatcher never reaches an internal-error arm, whatever token follows a header
+            badx = []
+            for key, ps in D.exec_table().items():
+                for p in ps:
+                    if p.outcome.startswith("panic(") or p.r.outcome in ("panic", "diverge") or p.outcome == "Err(DeviceSpecificError)":
+                        badx.append("%s: %s" % ("/".join(str(k) for k in key if k), p.describe()))
+            R.check(not badx, "R01.2", "dispatcher-never-internal", "Node::exec has no panicking / internal-error outcome for any token class", "Node::exec can reach an internal-error arm: %s" % "; ".join(badx[:3]))
 
         # ---- R01.4 unsafe -------------------------------------------------------------------------------
         ub = [x for unit in P.units for x in unit.unsafe_blocks if x.get("user")]
